@@ -1,5 +1,1736 @@
-(* Proofs/Safety.v — under construction *)
-From Coq Require Import List NArith ZArith Bool Lia.
+(* Proofs/Safety.v — C01: no sequence of host calls that follows the
+   turn-taking protocol makes the interpreter panic; every failure is an error
+   value after which the interpreter is idle, still accepts lines, and the
+   error can be rendered as source line plus caret.
+
+   Main results (all closed under the global context):
+     step_no_panic, history_no_panic, session_no_panic   — no call returns [Panic _]
+     errors_are_values, error_then_line_accepted         — errors are values
+   They exclude every panic tag of the model:
+     PUnwrapLine         the cursor, every saved location and every error
+                         location name lines that exist ([wf], [er_errloc]);
+     PListUnwrap         [store_ok]: both store indexes hold the same keys;
+     PAssertState        excluded by [legal];
+     PFunctionMustExist  expression evaluation never changes [functions];
+     PStackEmpty         expression evaluation restores [stack] on Ok and Err;
+     PArrayUnwrap, PCellIndex   [arr_ok]: one cell per index tuple, and
+                         [parse_data] never returns an empty list;
+     PRewind             the INPUT token stays before the cursor while the
+                         target of the INPUT statement is parsed;
+     PArityZero          never raised by the model.
+   [OutOfFuel] / [OracleMiss] are model artefacts and are not excluded.
+
+   Layout:
+     1. observation of a call's outcome ([call_result]) and its agreement with [step];
+     2. the invariant [wf];
+     3. outcome-aware relations ([orel]) and their structural rules;
+     4. the expression relation [ER] (wf kept, store / immediate line /
+        functions unchanged, no panic, error locations name existing lines,
+        stack restored on Ok and Err, cursor stays on its line and does not
+        move backwards on Ok) for every expression evaluator;
+     5. the statement relation [SR] for every statement evaluator;
+     6. the host API and the main theorems. *)
+From Coq Require Import List NArith ZArith Bool Lia Sorted.
 From Abasic Require Import Model.Bytes Model.Num Model.Token Model.Data Model.Lexer Gen.Tables
-     Model.State Model.Eval Model.Interp Proofs.Monad Proofs.Frames.
+     Model.State Model.Eval Model.Interp Proofs.Monad Proofs.Frames Proofs.StoreProofs.
 Import ListNotations.
+Local Open Scope nat_scope.
+
+(* ------------------------------------------------------------------ *)
+(* 1. The outcome of one host call *)
+
+Definition line_of (op : hostop) : option bytes :=
+  match op with HLine text => Some text | _ => None end.
+
+(* The (result, state) pair that [step] computes before [make_row].  A call
+   the protocol does not allow is not made at all. *)
+Definition call_result (fuel : nat) (s : interp) (op : hostop) : res unit * interp :=
+  if negb (legal s op) then (Ok tt, s)
+  else
+    let s0 := set_reads 0 s in
+    match op with
+    | HLine text => start_evaluating fuel text s0
+    | HCont => continue_evaluating fuel s0
+    | HReply text => provide_input text s0
+    | HBreak => host_break s0
+    | HRand seed => randomize seed s0
+    | HReplace => (Ok tt, fresh (pow_oracle s))
+    | HFlags w t => (Ok tt, set_flags w t s)
+    | HNew => (Ok tt, fresh (pow_oracle s))
+    end.
+
+(* what the harness does to the state after the call: take the outputs *)
+Definition drained (s : interp) (op : hostop) (s1 : interp) : interp :=
+  if negb (legal s op) then s1
+  else match op with
+       | HFlags _ _ | HNew => s1
+       | _ => set_outputs [] s1
+       end.
+
+Lemma make_row_snd r line s : snd (make_row r line s) = set_outputs [] s.
+Proof. reflexivity. Qed.
+
+Lemma step_call_result fuel s op :
+  snd (step fuel s op) = drained s op (snd (call_result fuel s op)).
+Proof.
+  unfold step, call_result, drained. destruct (negb (legal s op)); [reflexivity|].
+  destruct op; cbn [snd]; try reflexivity.
+  - destruct (start_evaluating _ _ _) as [r s1]; reflexivity.
+  - destruct (continue_evaluating _ _) as [r s1]; reflexivity.
+  - destruct (provide_input _ _) as [r s1]; reflexivity.
+Qed.
+
+(* for a call that is made, the row is built from exactly this outcome *)
+Lemma step_row_call_result fuel s op :
+  legal s op = true ->
+  match op with
+  | HFlags _ _ | HNew => True
+  | _ => step fuel s op =
+           let '(r, s1) := call_result fuel s op in
+           let '(rw, s2) := make_row r (line_of op) s1 in (Some rw, s2)
+  end.
+Proof.
+  intros Hl. unfold step, call_result. rewrite Hl. cbn [negb].
+  destruct op; cbn [line_of]; try exact I; reflexivity.
+Qed.
+
+(* ------------------------------------------------------------------ *)
+(* 2. The invariant *)
+
+Definition line_ok (t : list (N * list token)) (o : option N) : Prop :=
+  match o with None => True | Some n => toks_get n t <> None end.
+
+Definition line_exists (s : interp) (l : location) : Prop := line_ok (st_toks s) (loc_line l).
+
+Fixpoint dims_prod (l : list N) : N :=
+  match l with [] => 1%N | d :: r => (d * dims_prod r)%N end.
+
+(* the allocation has exactly one cell per index tuple *)
+Definition arr_ok (a : arr) : Prop := N.of_nat (length (ar_cells a)) = dims_prod (ar_dims a).
+
+Record wf (s : interp) : Prop := {
+  wf_store : store_ok s;
+  wf_loc : line_exists s (loc s);
+  wf_bp : forall p, breakpoint s = Some p -> toks_get (fst p) (st_toks s) <> None;
+  wf_stack : Forall (fun fr => line_exists s (fr_ret fr)) (stack s);
+  wf_loops : Forall (fun lp => line_exists s (lp_loc lp)) (loops s);
+  wf_fns : Forall (fun kv => toks_get (fn_line (snd kv)) (st_toks s) <> None) (functions s);
+  wf_data : forall d, data_it s = Some d -> Forall (fun c => line_exists s (fst c)) (di_chunks d);
+  wf_arrays : Forall (fun kv => arr_ok (snd kv)) (arrays s) }.
+
+Ltac proj_simpl :=
+  cbn [st_toks st_keys immediate loc breakpoint stack loops data_it functions input outputs
+       state rng variables arrays enable_warnings enable_tracing pow_oracle reads
+       set_store set_immediate set_loc set_breakpoint set_stack set_loops set_data_it
+       set_functions set_input set_outputs set_state set_rng set_variables set_arrays
+       set_flags set_oracle set_reads fst snd loc_line loc_idx] in *.
+
+Lemma wf_init : wf init_interp.
+Proof.
+  split; try exact store_ok_init; unfold init_interp; cbn; auto; try discriminate.
+Qed.
+
+Lemma wf_fresh oracle : wf (fresh oracle).
+Proof.
+  split; try exact store_ok_init; unfold fresh, init_interp; cbn; auto; try discriminate.
+Qed.
+
+(* [wf] only reads nine fields *)
+Lemma wf_ext s s' :
+  st_toks s' = st_toks s -> st_keys s' = st_keys s -> loc s' = loc s ->
+  breakpoint s' = breakpoint s -> stack s' = stack s -> loops s' = loops s ->
+  functions s' = functions s -> data_it s' = data_it s -> arrays s' = arrays s ->
+  wf s -> wf s'.
+Proof.
+  intros Ht Hk Hl Hb Hs Hlp Hf Hd Ha [W1 W2 W3 W4 W5 W6 W7 W8].
+  split; unfold line_exists, store_ok in *; rewrite ?Ht, ?Hk, ?Hl, ?Hb, ?Hs, ?Hlp, ?Hf, ?Hd, ?Ha; assumption.
+Qed.
+
+Lemma wf_set_loc l s : wf s -> line_exists s l -> wf (set_loc l s).
+Proof. intros [W1 W2 W3 W4 W5 W6 W7 W8] H. split; assumption. Qed.
+
+Lemma wf_set_stack v s :
+  wf s -> Forall (fun fr => line_exists s (fr_ret fr)) v -> wf (set_stack v s).
+Proof. intros [W1 W2 W3 W4 W5 W6 W7 W8] H. split; assumption. Qed.
+
+Lemma wf_set_loops v s :
+  wf s -> Forall (fun lp => line_exists s (lp_loc lp)) v -> wf (set_loops v s).
+Proof. intros [W1 W2 W3 W4 W5 W6 W7 W8] H. split; assumption. Qed.
+
+Lemma wf_set_functions v s :
+  wf s -> Forall (fun kv => toks_get (fn_line (snd kv)) (st_toks s) <> None) v -> wf (set_functions v s).
+Proof. intros [W1 W2 W3 W4 W5 W6 W7 W8] H. split; assumption. Qed.
+
+Lemma wf_set_breakpoint v s :
+  wf s -> (forall p, v = Some p -> toks_get (fst p) (st_toks s) <> None) -> wf (set_breakpoint v s).
+Proof. intros [W1 W2 W3 W4 W5 W6 W7 W8] H. split; assumption. Qed.
+
+Lemma wf_set_data_it v s :
+  wf s -> (forall d, v = Some d -> Forall (fun c => line_exists s (fst c)) (di_chunks d)) ->
+  wf (set_data_it v s).
+Proof. intros [W1 W2 W3 W4 W5 W6 W7 W8] H. split; assumption. Qed.
+
+Lemma wf_set_arrays v s : wf s -> Forall (fun kv => arr_ok (snd kv)) v -> wf (set_arrays v s).
+Proof. intros [W1 W2 W3 W4 W5 W6 W7 W8] H. split; assumption. Qed.
+
+Lemma wf_set_immediate v s : wf s -> wf (set_immediate v s).
+Proof. apply wf_ext; reflexivity. Qed.
+Lemma wf_set_input v s : wf s -> wf (set_input v s).
+Proof. apply wf_ext; reflexivity. Qed.
+Lemma wf_set_outputs v s : wf s -> wf (set_outputs v s).
+Proof. apply wf_ext; reflexivity. Qed.
+Lemma wf_set_state v s : wf s -> wf (set_state v s).
+Proof. apply wf_ext; reflexivity. Qed.
+Lemma wf_set_rng v s : wf s -> wf (set_rng v s).
+Proof. apply wf_ext; reflexivity. Qed.
+Lemma wf_set_variables v s : wf s -> wf (set_variables v s).
+Proof. apply wf_ext; reflexivity. Qed.
+Lemma wf_set_flags w t s : wf s -> wf (set_flags w t s).
+Proof. apply wf_ext; reflexivity. Qed.
+Lemma wf_set_reads v s : wf s -> wf (set_reads v s).
+Proof. apply wf_ext; reflexivity. Qed.
+
+#[local] Hint Resolve wf_set_immediate wf_set_input wf_set_outputs wf_set_state wf_set_rng
+  wf_set_variables wf_set_flags wf_set_reads : wfdb.
+
+(* association lists *)
+Lemma alist_get_In {V} k (l : list (bytes * V)) v : alist_get k l = Some v -> exists k', In (k', v) l.
+Proof.
+  induction l as [|[k' v'] l IH]; cbn [alist_get]; [discriminate|].
+  destruct (bytes_eqb k k').
+  - intros H; inversion H; subst. exists k'. left; reflexivity.
+  - intros H. destruct (IH H) as [k2 H2]. exists k2. right; exact H2.
+Qed.
+
+Lemma alist_get_set_same {V} k (v : V) l : alist_get k (alist_set k v l) = Some v.
+Proof.
+  induction l as [|[k' v'] l IH]; cbn [alist_set alist_get].
+  - rewrite bytes_eqb_refl; reflexivity.
+  - destruct (bytes_eqb k k') eqn:E; cbn [alist_get]; rewrite ?bytes_eqb_refl, ?E; auto.
+Qed.
+
+Lemma Forall_alist_set {V} (P : bytes * V -> Prop) k v l :
+  (forall k', P (k', v)) -> Forall P l -> Forall P (alist_set k v l).
+Proof.
+  intros Hv. induction l as [|[k' v'] l IH]; cbn [alist_set]; intros H.
+  - constructor; [apply Hv|constructor].
+  - inversion H; subst. destruct (bytes_eqb k k'); constructor; auto.
+Qed.
+
+Lemma Forall_alist_get {V} (P : bytes * V -> Prop) k v l :
+  Forall P l -> alist_get k l = Some v -> exists k', P (k', v).
+Proof.
+  intros H Hg. destruct (alist_get_In _ _ _ Hg) as [k' Hin]. exists k'.
+  rewrite Forall_forall in H. apply H; exact Hin.
+Qed.
+
+(* ------------------------------------------------------------------ *)
+(* 3. Outcome-aware relations.  [R s r s']: a run from [s] that ends with
+   outcome [r] (value forgotten) ends in [s'].  Unlike [Monad.mrel] the
+   relation may say different things for different outcomes. *)
+
+Definition forget {A} (r : res A) : res unit :=
+  match r with
+  | Ok _ => Ok tt | Err e l => Err e l | Panic p => Panic p
+  | OutOfFuel => OutOfFuel | OracleMiss => OracleMiss
+  end.
+
+Definition orel {A} (R : interp -> res unit -> interp -> Prop) (m : M A) : Prop :=
+  forall s, R s (forget (fst (m s))) (snd (m s)).
+
+(* the same under an extra precondition on the start state *)
+Definition orelP {A} (P : interp -> Prop) (R : interp -> res unit -> interp -> Prop) (m : M A) : Prop :=
+  forall s, P s -> R s (forget (fst (m s))) (snd (m s)).
+
+(* an [Ok]-only postcondition *)
+Definition mpost {A} (P : interp -> Prop) (m : M A) (Q : A -> interp -> Prop) : Prop :=
+  forall s, P s -> match m s with (Ok a, s') => Q a s' | _ => True end.
+
+Record ocat (R : interp -> res unit -> interp -> Prop) : Prop := {
+  oc_ok : forall s, R s (Ok tt) s;
+  oc_trans : forall a b c r, R a (Ok tt) b -> R b r c -> R a r c;
+  oc_err : forall s e, R s (Err e None) s;
+  oc_fuel : forall s, R s OutOfFuel s;
+  oc_miss : forall s, R s OracleMiss s }.
+
+Lemma bind_run {A B} (m : M A) (f : A -> M B) s :
+  bind m f s = match m s with
+               | (Ok a, s') => f a s'
+               | (Err e l, s') => (Err e l, s')
+               | (Panic p, s') => (Panic p, s')
+               | (OutOfFuel, s') => (OutOfFuel, s')
+               | (OracleMiss, s') => (OracleMiss, s')
+               end.
+Proof. reflexivity. Qed.
+
+Lemma bind_ret {A B} (a : A) (K : A -> M B) s : bind (ret a) K s = K a s.
+Proof. reflexivity. Qed.
+
+Section ORules.
+  Variable R : interp -> res unit -> interp -> Prop.
+  Hypothesis OC : ocat R.
+
+  Lemma orel_ret {A} (a : A) : orel R (ret a).
+  Proof. intros s; apply (oc_ok _ OC). Qed.
+  Lemma orel_get {A} (f : interp -> A) : orel R (get f).
+  Proof. intros s; apply (oc_ok _ OC). Qed.
+  Lemma orel_fail {A} e : orel R (@fail A e).
+  Proof. intros s; apply (oc_err _ OC). Qed.
+  Lemma orel_out_of_fuel {A} : orel R (@out_of_fuel A).
+  Proof. intros s; apply (oc_fuel _ OC). Qed.
+  Lemma orel_oracle_miss {A} : orel R (@oracle_miss A).
+  Proof. intros s; apply (oc_miss _ OC). Qed.
+
+  Lemma orel_modify f : (forall s, R s (Ok tt) (f s)) -> orel R (modify f).
+  Proof. intros H s; apply H. Qed.
+
+  Lemma orel_bind {A B} (m : M A) (f : A -> M B) :
+    orel R m -> (forall a, orel R (f a)) -> orel R (bind m f).
+  Proof.
+    intros Hm Hf s. rewrite bind_run. specialize (Hm s).
+    destruct (m s) as [[a|e l|p| |] s1]; cbn [fst snd forget] in *; try exact Hm.
+    eapply (oc_trans _ OC); [exact Hm | apply Hf].
+  Qed.
+
+  Lemma orel_repeat {S T} n (body : S -> M (S + T)) :
+    (forall acc, orel R (body acc)) -> forall acc, orel R (repeat_m n body acc).
+  Proof.
+    intros Hb. induction n as [|n IH]; intros acc; cbn [repeat_m].
+    - apply orel_out_of_fuel.
+    - apply orel_bind; [apply Hb|]. intros [acc'|r]; [apply IH | apply orel_ret].
+  Qed.
+
+  Lemma orelP_bind {A B} (P : interp -> Prop) (Q : A -> interp -> Prop) (m : M A) (f : A -> M B) :
+    orelP P R m -> mpost P m Q -> (forall a, orelP (Q a) R (f a)) -> orelP P R (bind m f).
+  Proof.
+    intros Hm Hq Hf s HP. rewrite bind_run. specialize (Hm s HP). specialize (Hq s HP).
+    destruct (m s) as [[a|e l|p| |] s1]; cbn [fst snd forget] in *; try exact Hm.
+    eapply (oc_trans _ OC); [exact Hm | apply Hf; exact Hq].
+  Qed.
+
+  Lemma orelP_of_orel {A} P (m : M A) : orel R m -> orelP P R m.
+  Proof. intros H s _; apply H. Qed.
+
+  Lemma orel_of_orelP {A} (m : M A) : orelP (fun _ => True) R m -> orel R m.
+  Proof. intros H s; apply H; exact I. Qed.
+End ORules.
+
+Lemma orel_weaken {A} (R1 R2 : interp -> res unit -> interp -> Prop) (m : M A) :
+  (forall s r s', R1 s r s' -> R2 s r s') -> orel R1 m -> orel R2 m.
+Proof. intros H Hm s; apply H, Hm. Qed.
+
+(* The structural walker, syntactically guarded. *)
+Ltac orel_step OC leaf :=
+  lazymatch goal with
+  | |- orel _ (ret _) => apply (orel_ret _ OC)
+  | |- orel _ (fail _) => apply (orel_fail _ OC)
+  | |- orel _ out_of_fuel => apply (orel_out_of_fuel _ OC)
+  | |- orel _ oracle_miss => apply (orel_oracle_miss _ OC)
+  | |- orel _ (get _) => apply (orel_get _ OC)
+  | |- orel _ (bind _ _) => first [ solve [leaf] | apply (orel_bind _ OC); [| intro] ]
+  | |- orel _ (repeat_m _ _ _) => apply (orel_repeat _ OC); intro
+  | |- orel _ (match ?x with _ => _ end) => destruct x
+  | |- _ => solve [leaf]
+  end.
+Ltac orel_walk OC leaf := repeat (orel_step OC leaf).
+
+(* ------------------------------------------------------------------ *)
+(* 4. The expression relation *)
+
+Definition is_val (r : res unit) : Prop :=
+  match r with Ok _ | Err _ _ => True | _ => False end.
+
+Record ER (s : interp) (r : res unit) (s' : interp) : Prop := {
+  er_wf : wf s';
+  er_toks : st_toks s' = st_toks s;
+  er_keys : st_keys s' = st_keys s;
+  er_imm : immediate s' = immediate s;
+  er_fns : functions s' = functions s;
+  er_nopanic : forall p, r <> Panic p;
+  er_errloc : forall e l, r = Err e (Some l) -> line_exists s' l;
+  er_stack : is_val r -> stack s' = stack s;
+  er_loc : r = Ok tt -> loc_line (loc s') = loc_line (loc s) /\ loc_idx (loc s) <= loc_idx (loc s') }.
+
+Definition ERw (s : interp) (r : res unit) (s' : interp) : Prop := wf s -> ER s r s'.
+
+Lemma ERw_ocat : ocat ERw.
+Proof.
+  split.
+  - intros s Hwf. split; auto; try discriminate.
+  - intros a b c r H1 H2 Hwf.
+    destruct (H1 Hwf) as [A1 A2 A3 A4 A5 A6 A7 A8 A9].
+    destruct (H2 A1) as [B1 B2 B3 B4 B5 B6 B7 B8 B9].
+    split; [exact B1|congruence|congruence|congruence|congruence|exact B6|exact B7| |].
+    + intros Hv. rewrite (B8 Hv). apply A8; exact I.
+    + intros Hr. destruct (B9 Hr) as [C1 C2]. destruct (A9 eq_refl) as [D1 D2]. split; [congruence|lia].
+  - intros s e Hwf. split; auto; try discriminate.
+  - intros s Hwf. split; auto; try discriminate.
+  - intros s Hwf. split; auto; try discriminate.
+Qed.
+
+(* a step that leaves every field read by [wf], the immediate line and the
+   cursor alone *)
+Lemma ER_frame s s' :
+  st_toks s' = st_toks s -> st_keys s' = st_keys s -> immediate s' = immediate s -> loc s' = loc s ->
+  breakpoint s' = breakpoint s -> stack s' = stack s -> loops s' = loops s ->
+  functions s' = functions s -> data_it s' = data_it s -> arrays s' = arrays s ->
+  ERw s (Ok tt) s'.
+Proof.
+  intros Ht Hk Hi Hl Hb Hs Hlp Hf Hd Ha Hwf.
+  split; auto; try discriminate.
+  - eapply wf_ext; eauto.
+  - intros _. rewrite Hl. split; [reflexivity|lia].
+Qed.
+
+Lemma er_modify_frame f :
+  (forall s, st_toks (f s) = st_toks s /\ st_keys (f s) = st_keys s /\ immediate (f s) = immediate s
+             /\ loc (f s) = loc s /\ breakpoint (f s) = breakpoint s /\ stack (f s) = stack s
+             /\ loops (f s) = loops s /\ functions (f s) = functions s /\ data_it (f s) = data_it s
+             /\ arrays (f s) = arrays s) ->
+  orel ERw (modify f).
+Proof.
+  intros H. apply orel_modify. intros s.
+  destruct (H s) as (H1 & H2 & H3 & H4 & H5 & H6 & H7 & H8 & H9 & H10). apply ER_frame; assumption.
+Qed.
+
+Ltac frame_tac := apply er_modify_frame; intros; repeat split; reflexivity.
+
+(* token cursor *)
+Definition cur_toks (s : interp) : list token :=
+  match loc_line (loc s) with
+  | None => immediate s
+  | Some n => match toks_get n (st_toks s) with Some ts => ts | None => [] end
+  end.
+
+Definition bump (s : interp) : interp := set_reads (S (reads s)) s.
+
+Lemma cur_tokens_eq s : line_exists s (loc s) -> cur_tokens s = (Ok (cur_toks s), s).
+Proof.
+  unfold cur_tokens, cur_toks, line_exists, line_ok. rewrite bind_get. unfold tokens_for_line.
+  destruct (loc_line (loc s)) as [n|]; [|reflexivity].
+  destruct (toks_get n (st_toks s)); [reflexivity|congruence].
+Qed.
+
+Lemma peek_eq s :
+  line_exists s (loc s) ->
+  peek_next_token s = (Ok (nth_error (cur_toks s) (loc_idx (loc s))), bump s).
+Proof.
+  intros H. unfold peek_next_token. rewrite bind_modify. fold (bump s).
+  rewrite bind_run, (cur_tokens_eq (bump s) H). reflexivity.
+Qed.
+
+Lemma er_peek : orel ERw peek_next_token.
+Proof.
+  intros s Hwf. rewrite (peek_eq s (wf_loc _ Hwf)). cbn [fst snd forget].
+  apply ER_frame; auto; reflexivity.
+Qed.
+
+Lemma er_cur_tokens : orel ERw cur_tokens.
+Proof.
+  intros s Hwf. rewrite (cur_tokens_eq s (wf_loc _ Hwf)). cbn [fst snd forget].
+  apply (oc_ok _ ERw_ocat); exact Hwf.
+Qed.
+
+Lemma er_advance : orel ERw advance.
+Proof.
+  apply orel_modify. intros s Hwf. split; try reflexivity; try discriminate.
+  - apply wf_set_loc; [exact Hwf|]. exact (wf_loc _ Hwf).
+  - intros _. proj_simpl. split; [reflexivity|lia].
+Qed.
+
+Lemma er_fail_at_loc {A} e : orel ERw (l <- get loc ;; @fail_at A e l).
+Proof.
+  intros s Hwf. cbn. split; auto; try discriminate.
+  intros e' l' H. inversion H; subst. exact (wf_loc _ Hwf).
+Qed.
+
+Create HintDb erdb discriminated.
+#[local] Hint Resolve er_peek er_cur_tokens er_advance er_fail_at_loc : erdb.
+
+Ltac er_leaf := solve [ auto 3 with erdb nocore | frame_tac ].
+Ltac er_walk := orel_walk ERw_ocat er_leaf.
+
+Lemma er_has_next : orel ERw has_next_token.
+Proof. unfold has_next_token; er_walk. Qed.
+Lemma er_next_token : orel ERw next_token.
+Proof. unfold next_token; er_walk. Qed.
+#[local] Hint Resolve er_has_next er_next_token : erdb.
+Lemma er_next_unwrapped : orel ERw next_unwrapped_token.
+Proof. unfold next_unwrapped_token; er_walk. Qed.
+#[local] Hint Resolve er_next_unwrapped : erdb.
+Lemma er_expect t : orel ERw (expect_next_token t).
+Proof. unfold expect_next_token; er_walk. Qed.
+Lemma er_accept t : orel ERw (accept_next_token t).
+Proof. unfold accept_next_token; er_walk. Qed.
+Lemma er_peek_is t : orel ERw (peek_is t).
+Proof. unfold peek_is; er_walk. Qed.
+Lemma er_try {B} (g : token -> option B) : orel ERw (try_next_token g).
+Proof. unfold try_next_token; er_walk. Qed.
+#[local] Hint Resolve er_expect er_accept er_peek_is er_try : erdb.
+
+(* stack lookups, variables, output, random numbers, operators *)
+Lemma er_find_var n : orel ERw (find_variable_value_in_stack n).
+Proof. unfold find_variable_value_in_stack; er_walk. Qed.
+Lemma er_variables_get n : orel ERw (variables_get n).
+Proof. unfold variables_get; er_walk. Qed.
+Lemma er_push_output o : orel ERw (push_output o).
+Proof. unfold push_output; er_walk. Qed.
+Lemma er_get_line_number : orel ERw get_line_number.
+Proof. unfold get_line_number; er_walk. Qed.
+#[local] Hint Resolve er_find_var er_variables_get er_push_output er_get_line_number : erdb.
+Lemma er_warn m : orel ERw (warn m).
+Proof. unfold warn; er_walk. Qed.
+#[local] Hint Resolve er_warn : erdb.
+Lemma er_maybe_warn n : orel ERw (maybe_warn_undeclared_array n).
+Proof. unfold maybe_warn_undeclared_array; er_walk. Qed.
+Lemma er_rng_rnd x : orel ERw (rng_rnd x).
+Proof. unfold rng_rnd; er_walk. Qed.
+Lemma er_eval_unary o v : orel ERw (eval_unary o v).
+Proof. unfold eval_unary; er_walk. Qed.
+Lemma er_eval_addsub o a b : orel ERw (eval_addsub o a b).
+Proof. unfold eval_addsub; er_walk. Qed.
+Lemma er_eval_muldiv o a b : orel ERw (eval_muldiv o a b).
+Proof. unfold eval_muldiv; er_walk. Qed.
+Lemma er_eval_eq o a b : orel ERw (eval_eq o a b).
+Proof. unfold eval_eq; er_walk. Qed.
+Lemma er_eval_and a b : orel ERw (eval_and a b).
+Proof. unfold eval_and; er_walk. Qed.
+Lemma er_eval_or a b : orel ERw (eval_or a b).
+Proof. unfold eval_or; er_walk. Qed.
+Lemma er_eval_pow a b : orel ERw (eval_pow a b).
+Proof. unfold eval_pow; er_walk. Qed.
+Lemma er_expect_number v : orel ERw (expect_number v).
+Proof. unfold expect_number; er_walk. Qed.
+#[local] Hint Resolve er_maybe_warn er_rng_rnd er_eval_unary er_eval_addsub er_eval_muldiv er_eval_eq
+  er_eval_and er_eval_or er_eval_pow er_expect_number : erdb.
+
+(* pure results that are either a value or an error without location *)
+Definition res_plain {A} (r : res A) : Prop :=
+  match r with Ok _ | Err _ None => True | _ => False end.
+
+Lemma er_lift_res {A} (r : res A) : res_plain r -> orel ERw (lift_res r).
+Proof.
+  intros H s. unfold lift_res; cbn [fst snd].
+  destruct r as [a|e [l|]|p| |]; cbn in H; try contradiction; cbn [forget].
+  - apply (oc_ok _ ERw_ocat).
+  - apply (oc_err _ ERw_ocat).
+Qed.
+
+(* ---- arrays: PArrayUnwrap and PCellIndex ---- *)
+
+Lemma checked_product_eq l : forall acc t, checked_product l acc = Some t -> t = (acc * dims_prod l)%N.
+Proof.
+  induction l as [|d l IH]; intros acc t; cbn [checked_product dims_prod].
+  - intros H; inversion H; lia.
+  - destruct (USIZE_MAX <? acc * d)%N; [discriminate|]. intros H. rewrite (IH _ _ H). lia.
+Qed.
+
+Lemma array_create_value_plain name mi : res_plain (array_create_value name mi).
+Proof.
+  unfold array_create_value. destruct mi as [|m mi]; [exact I|].
+  destruct (existsb _ _); [exact I|].
+  destruct (checked_product _ _); [|exact I].
+  destruct (max_dim_total <? n)%N; exact I.
+Qed.
+
+Lemma array_create_value_ok name mi a : array_create_value name mi = Ok a -> arr_ok a.
+Proof.
+  unfold array_create_value. destruct mi as [|m mi]; [discriminate|].
+  destruct (existsb _ _); [discriminate|].
+  destruct (checked_product _ _) as [t|] eqn:E; [|discriminate].
+  destruct (max_dim_total <? t)%N; [discriminate|].
+  intros H; inversion H; subst; clear H. unfold arr_ok; cbn [ar_cells ar_dims].
+  rewrite repeat_length, N2Nat.id. apply checked_product_eq in E. rewrite E, N.mul_1_l. reflexivity.
+Qed.
+
+Lemma linear_index_bound idx : forall dims acc stride i,
+  length idx = length dims -> (acc < stride)%N ->
+  linear_index idx dims acc stride = Some i -> (i < stride * dims_prod dims)%N.
+Proof.
+  induction idx as [|x idx IH]; intros dims acc stride i Hlen Hacc; destruct dims as [|d dims];
+    cbn [length] in Hlen; try discriminate; cbn [linear_index dims_prod].
+  - intros H; inversion H; subst. lia.
+  - destruct (d <=? x)%N eqn:E; [discriminate|]. apply N.leb_gt in E. intros H.
+    apply IH in H; [| lia | nia]. nia.
+Qed.
+
+Lemma array_linear_index_plain a idx : res_plain (array_linear_index a idx).
+Proof.
+  unfold array_linear_index. destruct (negb _); [exact I|]. destruct (linear_index _ _ _ _); exact I.
+Qed.
+
+Lemma array_linear_index_bound a idx i :
+  arr_ok a -> array_linear_index a idx = Ok i -> N.to_nat i < length (ar_cells a).
+Proof.
+  unfold array_linear_index, arr_ok. intros Hok.
+  destruct (Nat.eqb (length idx) (length (ar_dims a))) eqn:E; cbn [negb]; [|discriminate].
+  apply Nat.eqb_eq in E.
+  destruct (linear_index idx (ar_dims a) 0 1) as [j|] eqn:El; [|discriminate].
+  intros H; inversion H; subst. apply linear_index_bound in El; [|exact E|lia]. lia.
+Qed.
+
+Lemma length_list_update {A} (l : list A) : forall i v, length (list_update l i v) = length l.
+Proof.
+  induction l as [|x l IH]; intros i v; cbn [list_update]; [reflexivity|].
+  destruct i; cbn [length]; [reflexivity|rewrite IH; reflexivity].
+Qed.
+
+Lemma ER_set_arrays v s : Forall (fun kv => arr_ok (snd kv)) v -> ERw s (Ok tt) (set_arrays v s).
+Proof.
+  intros Hv Hwf. split; try reflexivity; try discriminate.
+  - apply wf_set_arrays; assumption.
+  - intros _; split; [reflexivity|apply le_n].
+Qed.
+
+Lemma arr_ok_of_get s name a : wf s -> alist_get name (arrays s) = Some a -> arr_ok a.
+Proof.
+  intros Hwf Hg. destruct (Forall_alist_get _ _ _ _ (wf_arrays _ Hwf) Hg) as [k H]. exact H.
+Qed.
+
+Lemma er_maybe_default name d : orel ERw (maybe_create_default_array name d).
+Proof.
+  intros s Hwf. unfold maybe_create_default_array. rewrite bind_get.
+  destruct (alist_has name (arrays s)); [apply (oc_ok _ ERw_ocat); exact Hwf|].
+  rewrite bind_run. unfold lift_res.
+  pose proof (array_create_value_plain name (repeat DEFAULT_ARRAY_SIZE d)) as Hp.
+  destruct (array_create_value name (repeat DEFAULT_ARRAY_SIZE d)) as [a|e [l|]|p| |] eqn:E;
+    cbn in Hp; try contradiction.
+  - unfold modify; cbn [fst snd forget]. apply ER_set_arrays; [|exact Hwf].
+    apply Forall_alist_set; [|exact (wf_arrays _ Hwf)].
+    intros k; cbn [snd]. eapply array_create_value_ok; exact E.
+  - cbn [fst snd forget]. apply (oc_err _ ERw_ocat); exact Hwf.
+Qed.
+
+Lemma maybe_default_post name d :
+  mpost (fun _ => True) (maybe_create_default_array name d)
+        (fun _ s' => alist_has name (arrays s') = true).
+Proof.
+  intros s _. unfold maybe_create_default_array. rewrite bind_get.
+  destruct (alist_has name (arrays s)) eqn:Hh; [exact Hh|].
+  rewrite bind_run. unfold lift_res.
+  destruct (array_create_value name (repeat DEFAULT_ARRAY_SIZE d)) as [a|e l|p| |]; try exact I.
+  unfold modify, alist_has; proj_simpl. rewrite alist_get_set_same. reflexivity.
+Qed.
+
+Lemma er_arrays_get name idx : orel ERw (arrays_get name idx).
+Proof.
+  unfold arrays_get. apply (orel_of_orelP _).
+  eapply (orelP_bind _ ERw_ocat) with (Q := fun _ s' => alist_has name (arrays s') = true).
+  - apply orelP_of_orel, er_maybe_default.
+  - apply maybe_default_post.
+  - intros _ s Hhas Hwf. rewrite bind_get. unfold alist_has in Hhas.
+    destruct (alist_get name (arrays s)) as [a|] eqn:Hg; [|discriminate].
+    rewrite bind_run. unfold lift_res.
+    pose proof (array_linear_index_plain a idx) as Hp.
+    destruct (array_linear_index a idx) as [i|e [l|]|p| |] eqn:E; cbn in Hp; try contradiction.
+    + pose proof (array_linear_index_bound a idx i (arr_ok_of_get _ _ _ Hwf Hg) E) as Hlt.
+      destruct (nth_error (ar_cells a) (N.to_nat i)) as [v|] eqn:En.
+      * apply (oc_ok _ ERw_ocat); exact Hwf.
+      * apply nth_error_None in En. lia.
+    + apply (oc_err _ ERw_ocat); exact Hwf.
+Qed.
+
+Lemma er_arrays_set name idx v : orel ERw (arrays_set name idx v).
+Proof.
+  unfold arrays_set. destruct (negb (type_matches name v)); [apply (orel_fail _ ERw_ocat)|].
+  apply (orel_of_orelP _).
+  eapply (orelP_bind _ ERw_ocat) with (Q := fun _ s' => alist_has name (arrays s') = true).
+  - apply orelP_of_orel, er_maybe_default.
+  - apply maybe_default_post.
+  - intros _ s Hhas Hwf. rewrite bind_get. unfold alist_has in Hhas.
+    destruct (alist_get name (arrays s)) as [a|] eqn:Hg; [|discriminate].
+    destruct (negb (Bool.eqb _ _)); [apply (oc_err _ ERw_ocat); exact Hwf|].
+    rewrite bind_run. unfold lift_res.
+    pose proof (array_linear_index_plain a idx) as Hp.
+    destruct (array_linear_index a idx) as [i|e [l|]|p| |] eqn:E; cbn in Hp; try contradiction.
+    + pose proof (array_linear_index_bound a idx i (arr_ok_of_get _ _ _ Hwf Hg) E) as Hlt.
+      apply Nat.ltb_lt in Hlt. rewrite Hlt. unfold modify; cbn [fst snd forget].
+      apply ER_set_arrays; [|exact Hwf].
+      apply Forall_alist_set; [|exact (wf_arrays _ Hwf)].
+      intros k; cbn [snd]. unfold arr_ok; cbn [ar_cells ar_dims]. rewrite length_list_update.
+      exact (arr_ok_of_get _ _ _ Hwf Hg).
+    + apply (oc_err _ ERw_ocat); exact Hwf.
+Qed.
+
+Lemma er_arrays_create name mi : orel ERw (arrays_create name mi).
+Proof.
+  intros s Hwf. unfold arrays_create. rewrite bind_get.
+  destruct (alist_has name (arrays s)); [apply (oc_err _ ERw_ocat); exact Hwf|].
+  rewrite bind_run. unfold lift_res.
+  pose proof (array_create_value_plain name mi) as Hp.
+  destruct (array_create_value name mi) as [a|e [l|]|p| |] eqn:E; cbn in Hp; try contradiction.
+  - unfold modify; cbn [fst snd forget]. apply ER_set_arrays; [|exact Hwf].
+    apply Forall_alist_set; [|exact (wf_arrays _ Hwf)].
+    intros k; cbn [snd]. eapply array_create_value_ok; exact E.
+  - cbn [fst snd forget]. apply (oc_err _ ERw_ocat); exact Hwf.
+Qed.
+#[local] Hint Resolve er_maybe_default er_arrays_get er_arrays_set er_arrays_create : erdb.
+
+(* ---- error locations name existing lines ---- *)
+
+Lemma data_location_ok s l : wf s -> get_data_location s = Some l -> line_exists s l.
+Proof.
+  intros Hwf. unfold get_data_location. destruct (data_it s) as [d|] eqn:Hd; [|discriminate].
+  destruct (nth_error (di_chunks d) (di_ci d)) as [[l0 items]|] eqn:En; [|discriminate].
+  intros H; inversion H; subst. pose proof (wf_data _ Hwf _ Hd) as Hall.
+  rewrite Forall_forall in Hall. apply nth_error_In in En. exact (Hall _ En).
+Qed.
+
+Lemma populate_loc_ok s e l l' :
+  wf s -> (forall l0, l = Some l0 -> line_exists s l0) ->
+  populate_error_location e l s = Some l' -> line_exists s l'.
+Proof.
+  intros Hwf Hl. unfold populate_error_location. destruct l as [l0|].
+  - intros H; inversion H; subst. apply Hl; reflexivity.
+  - destruct e; try (intros H; inversion H; subst; exact (wf_loc _ Hwf)).
+    apply data_location_ok; exact Hwf.
+Qed.
+
+(* ---- user-defined function calls: PFunctionMustExist and PStackEmpty ---- *)
+
+Lemma pop_eq s st fr :
+  stack s = st ++ [fr] -> pop_function_call s = (Ok tt, set_loc (fr_ret fr) (set_stack st s)).
+Proof.
+  intros H. unfold pop_function_call. rewrite bind_get, H, rev_unit. unfold modify.
+  rewrite rev_involutive. reflexivity.
+Qed.
+
+Lemma push_eq name b s d :
+  alist_get name (functions s) = Some d ->
+  push_function_call name b s =
+    if Nat.eqb (length (stack s)) stack_limit then (Err EStackOverflow None, s)
+    else (Ok tt, set_loc (mkloc (Some (fn_line d)) (fn_idx d))
+                   (set_stack (stack s ++ [mkframe (loc s) b]) s)).
+Proof.
+  intros H. unfold push_function_call. rewrite bind_get.
+  destruct (Nat.eqb (length (stack s)) stack_limit); [reflexivity|].
+  rewrite bind_get, bind_modify, bind_get. proj_simpl. rewrite H. reflexivity.
+Qed.
+
+Lemma wf_stack_split s st fr :
+  wf s -> stack s = st ++ [fr] ->
+  Forall (fun fr => line_exists s (fr_ret fr)) st /\ line_exists s (fr_ret fr).
+Proof.
+  intros Hwf H. pose proof (wf_stack _ Hwf) as Hall. rewrite H in Hall.
+  apply Forall_app in Hall. destruct Hall as [H1 H2]. split; [exact H1|]. inversion H2; assumption.
+Qed.
+
+Definition fn_known (name : bytes) (d : fn_def) (s : interp) : Prop :=
+  alist_get name (functions s) = Some d.
+
+Lemma fn_known_post {A} name d (m : M A) :
+  orel ERw m ->
+  mpost (fun s => wf s /\ fn_known name d s) m (fun _ s' => wf s' /\ fn_known name d s').
+Proof.
+  intros Hm s [Hwf Hf]. destruct (Hm s Hwf) as [A1 A2 A3 A4 A5 A6 A7 A8 A9].
+  destruct (m s) as [[a|e l|p| |] s1]; cbn [fst snd] in *; auto.
+  split; [exact A1|]. unfold fn_known. rewrite A5. exact Hf.
+Qed.
+
+(* what the call of a function body does, started with the callee frame on top *)
+Record CB (s : interp) (st : list frame) (ret_loc : location) (r : res unit) (s' : interp) : Prop := {
+  cb_wf : wf s';
+  cb_toks : st_toks s' = st_toks s;
+  cb_keys : st_keys s' = st_keys s;
+  cb_imm : immediate s' = immediate s;
+  cb_fns : functions s' = functions s;
+  cb_nopanic : forall p, r <> Panic p;
+  cb_errloc : forall e l, r = Err e (Some l) -> line_exists s' l;
+  cb_stack : is_val r -> stack s' = st;
+  cb_loc : r = Ok tt -> loc s' = ret_loc }.
+
+Section ExprSafe.
+  Variable fuel : nat.
+  Variable rec : M value.
+  Hypothesis Hrec : orel ERw rec.
+
+  Lemma er_bind_arguments args : forall i n b, orel ERw (bind_arguments rec args i n b).
+  Proof.
+    induction args as [|a args IH]; intros i n b; cbn [bind_arguments]; er_walk.
+  Qed.
+
+  Lemma call_body_spec s st fr :
+    wf s -> stack s = st ++ [fr] ->
+    CB s st (fr_ret fr) (forget (fst (call_body rec s))) (snd (call_body rec s)).
+  Proof.
+    intros Hwf Hst. unfold call_body. destruct (Hrec s Hwf) as [A1 A2 A3 A4 A5 A6 A7 A8 A9].
+    destruct (rec s) as [[v|e l|p| |] s1]; cbn [fst snd forget] in *.
+    - assert (Hst1 : stack s1 = st ++ [fr]) by (rewrite A8; auto; exact I).
+      rewrite (pop_eq s1 st fr Hst1). cbn [fst snd forget].
+      destruct (wf_stack_split s1 st fr A1 Hst1) as [F1 F2].
+      split; proj_simpl; auto; try discriminate.
+      apply wf_set_loc; [apply wf_set_stack; assumption|exact F2].
+    - assert (Hst1 : stack s1 = st ++ [fr]) by (rewrite A8; auto; exact I).
+      rewrite (pop_eq s1 st fr Hst1). cbn [fst snd forget].
+      destruct (wf_stack_split s1 st fr A1 Hst1) as [F1 F2].
+      split; proj_simpl; auto; try discriminate.
+      + apply wf_set_loc; [apply wf_set_stack; assumption|exact F2].
+      + intros e0 l0 H; inversion H; subst.
+        apply (populate_loc_ok s1 e0 l l0 A1); [|assumption].
+        intros l1 ->. eapply A7; reflexivity.
+    - exfalso; eapply A6; reflexivity.
+    - split; auto; try discriminate. intros [].
+    - split; auto; try discriminate. intros [].
+  Qed.
+
+  Lemma er_call_tail name d b :
+    orelP (fun s => wf s /\ fn_known name d s) ERw
+          (push_function_call name b ;;; v <- call_body rec ;; ret (Some v)).
+  Proof.
+    intros s [Hwf Hd] _. rewrite bind_run, (push_eq name b s d Hd).
+    destruct (Nat.eqb (length (stack s)) stack_limit); [apply (oc_err _ ERw_ocat); exact Hwf|].
+    assert (Hfn : toks_get (fn_line d) (st_toks s) <> None).
+    { destruct (Forall_alist_get _ _ _ _ (wf_fns _ Hwf) Hd) as [k H]. exact H. }
+    set (s1 := set_loc _ _).
+    assert (Hwf1 : wf s1).
+    { apply wf_set_loc; [apply wf_set_stack; [exact Hwf|]|exact Hfn].
+      apply Forall_app; split; [exact (wf_stack _ Hwf)|]. constructor; [exact (wf_loc _ Hwf)|constructor]. }
+    rewrite bind_run.
+    destruct (call_body_spec s1 (stack s) (mkframe (loc s) b) Hwf1 eq_refl) as [C1 C2 C3 C4 C5 C6 C7 C8 C9].
+    destruct (call_body rec s1) as [[v|e l|p| |] s2]; cbn [fst snd forget ret] in *;
+      subst s1; proj_simpl; (split; auto; try discriminate).
+    - intros _. rewrite C9 by reflexivity. cbn [fr_ret]. split; [reflexivity|apply le_n].
+  Qed.
+
+  Lemma er_user_function_call name : orel ERw (user_function_call rec name).
+  Proof.
+    intros s Hwf. unfold user_function_call. rewrite bind_get.
+    destruct (alist_get name (functions s)) as [d|] eqn:Hd; [|apply (oc_ok _ ERw_ocat); exact Hwf].
+    assert (H : orelP (fun s => wf s /\ fn_known name d s) ERw
+                  (expect_next_token TLeftParen ;;;
+                   bindings <- bind_arguments rec (fn_args d) 0 (length (fn_args d)) [] ;;
+                   expect_next_token TRightParen ;;;
+                   push_function_call name bindings ;;;
+                   v <- call_body rec ;; ret (Some v))).
+    { apply (orelP_bind _ ERw_ocat) with (Q := fun _ s => wf s /\ fn_known name d s);
+        [apply orelP_of_orel, er_expect | apply fn_known_post, er_expect | intros _].
+      apply (orelP_bind _ ERw_ocat) with (Q := fun _ s => wf s /\ fn_known name d s);
+        [apply orelP_of_orel, er_bind_arguments | apply fn_known_post, er_bind_arguments | intros b].
+      apply (orelP_bind _ ERw_ocat) with (Q := fun _ s => wf s /\ fn_known name d s);
+        [apply orelP_of_orel, er_expect | apply fn_known_post, er_expect | intros _].
+      apply er_call_tail. }
+    apply H; [split; assumption|exact Hwf].
+  Qed.
+
+  Lemma er_array_index : orel ERw (evaluate_array_index fuel rec).
+  Proof. unfold evaluate_array_index; er_walk. Qed.
+
+  Lemma er_unary_arg : orel ERw (unary_number_function_arg rec).
+  Proof. unfold unary_number_function_arg; er_walk. Qed.
+
+  Lemma er_function_call name : orel ERw (function_call rec name).
+  Proof.
+    unfold function_call.
+    orel_walk ERw_ocat ltac:(first [ apply er_unary_arg | apply er_user_function_call | er_leaf ]).
+  Qed.
+
+  Lemma er_unary : orel ERw (unary_operator fuel rec).
+  Proof.
+    unfold unary_operator, parenthesized_expression, expression_term.
+    orel_walk ERw_ocat ltac:(first [ apply er_function_call | apply er_array_index | er_leaf ]).
+  Qed.
+
+  Lemma er_tier {O} (g : M (option O)) (operand : M value) (ap : O -> value -> value -> M value) :
+    orel ERw g -> orel ERw operand -> (forall o a b, orel ERw (ap o a b)) ->
+    orel ERw (tier fuel g operand ap).
+  Proof. intros Hg Ho Ha. unfold tier; er_walk. Qed.
+
+  Lemma er_accept_as {O} t (o : O) : orel ERw (accept_as t o).
+  Proof. unfold accept_as; er_walk. Qed.
+
+  Lemma er_logical_or : orel ERw (logical_or_expression fuel rec).
+  Proof.
+    unfold logical_or_expression, logical_and_expression, equality_expression,
+      plus_or_minus_expression, multiply_or_divide_expression, exponent_expression.
+    repeat (apply er_tier;
+            [ first [apply er_accept_as | apply er_try] | | intros; er_leaf ]).
+    apply er_unary.
+  Qed.
+End ExprSafe.
+
+Lemma er_evaluate_expression fuel : forall n, orel ERw (evaluate_expression fuel n).
+Proof.
+  induction fuel as [|k IH]; intros n; cbn [evaluate_expression].
+  - apply (orel_out_of_fuel _ ERw_ocat).
+  - destruct (Nat.eqb n max_nesting); [apply (orel_fail _ ERw_ocat)|].
+    apply er_logical_or; apply IH.
+Qed.
+#[local] Hint Resolve er_evaluate_expression : erdb.
+
+(* ------------------------------------------------------------------ *)
+(* 5. The statement relation: wf kept, store unchanged, no panic, error
+   locations name existing lines. *)
+
+Record SR (s : interp) (r : res unit) (s' : interp) : Prop := {
+  sr_wf : wf s';
+  sr_toks : st_toks s' = st_toks s;
+  sr_keys : st_keys s' = st_keys s;
+  sr_nopanic : forall p, r <> Panic p;
+  sr_errloc : forall e l, r = Err e (Some l) -> line_exists s' l }.
+
+Definition SRw (s : interp) (r : res unit) (s' : interp) : Prop := wf s -> SR s r s'.
+
+Lemma SRw_ocat : ocat SRw.
+Proof.
+  split.
+  - intros s Hwf. split; auto; discriminate.
+  - intros a b c r H1 H2 Hwf.
+    destruct (H1 Hwf) as [A1 A2 A3 A4 A5]. destruct (H2 A1) as [B1 B2 B3 B4 B5].
+    split; [exact B1|congruence|congruence|exact B4|exact B5].
+  - intros s e Hwf. split; auto; discriminate.
+  - intros s Hwf. split; auto; discriminate.
+  - intros s Hwf. split; auto; discriminate.
+Qed.
+
+Lemma ER_SR s r s' : ERw s r s' -> SRw s r s'.
+Proof. intros H Hwf. destruct (H Hwf) as [A1 A2 A3 A4 A5 A6 A7 A8 A9]. split; assumption. Qed.
+
+Lemma sr_of_er {A} (m : M A) : orel ERw m -> orel SRw m.
+Proof. apply orel_weaken. exact ER_SR. Qed.
+
+Lemma sr_of_orelP_wf {A} (m : M A) : orelP wf SRw m -> orel SRw m.
+Proof. intros H s Hwf. exact (H s Hwf Hwf). Qed.
+
+Lemma orelP_pure {A} (P : interp -> Prop) (F : Prop) R (m : M A) :
+  (F -> orelP P R m) -> orelP (fun s => P s /\ F) R m.
+Proof. intros H s [HP HF]; apply H; assumption. Qed.
+
+Lemma orelP_weaken {A} (P P' : interp -> Prop) R (m : M A) :
+  (forall s, P' s -> P s) -> orelP P R m -> orelP P' R m.
+Proof. intros H Hm s HP; apply Hm, H, HP. Qed.
+
+Lemma mpost_conj {A} P (m : M A) Q1 Q2 :
+  mpost P m Q1 -> mpost P m Q2 -> mpost P m (fun a s => Q1 a s /\ Q2 a s).
+Proof.
+  intros H1 H2 s HP. specialize (H1 s HP). specialize (H2 s HP).
+  destruct (m s) as [[a|e l|p| |] s1]; auto.
+Qed.
+
+Lemma mpost_True {A} P (m : M A) : mpost P m (fun _ _ => True).
+Proof. intros s _. destruct (m s) as [[a|e l|p| |] s1]; exact I. Qed.
+
+Lemma mpost_weaken {A} (P P' : interp -> Prop) (m : M A) Q :
+  (forall s, P' s -> P s) -> mpost P m Q -> mpost P' m Q.
+Proof. intros H Hm s HP; apply Hm, H, HP. Qed.
+
+Lemma line_exists_same s s' l : st_toks s' = st_toks s -> line_exists s l -> line_exists s' l.
+Proof. unfold line_exists. intros ->. auto. Qed.
+
+Lemma Forall_firstn' {A} (P : A -> Prop) i l : Forall P l -> Forall P (firstn i l).
+Proof.
+  intros H. rewrite <- (firstn_skipn i l) in H. apply Forall_app in H. tauto.
+Qed.
+
+(* wf of the standard resets *)
+Ltac wf_solve :=
+  repeat first
+    [ assumption
+    | apply wf_set_immediate | apply wf_set_input | apply wf_set_outputs | apply wf_set_state
+    | apply wf_set_rng | apply wf_set_variables | apply wf_set_flags | apply wf_set_reads
+    | apply wf_set_breakpoint; [| discriminate]
+    | apply wf_set_data_it; [| discriminate]
+    | apply wf_set_functions; [| constructor]
+    | apply wf_set_stack; [| constructor]
+    | apply wf_set_loops; [| constructor]
+    | apply wf_set_arrays; [| constructor]
+    | apply wf_set_loc; [| exact I] ].
+
+Lemma wf_imm_reset ts s : wf s -> wf (imm_reset ts s).
+Proof. intros Hwf. unfold imm_reset. destruct (breakpoint s); wf_solve. Qed.
+
+Ltac sr_modify_tac :=
+  apply (orel_modify SRw); intros ?s ?Hwf;
+  split; [wf_solve | reflexivity | reflexivity | discriminate | discriminate].
+
+Create HintDb srdb discriminated.
+
+Ltac sr_leaf :=
+  first [ solve [ auto 3 with srdb nocore ]
+        | solve [ apply sr_of_er; er_leaf ]
+        | solve [ sr_modify_tac ] ].
+Ltac sr_walk := orel_walk SRw_ocat sr_leaf.
+
+Lemma sr_set_imm ts : orel SRw (set_and_goto_immediate_line ts).
+Proof.
+  rewrite set_imm_is_modify. apply orel_modify. intros s Hwf.
+  pose proof (imm_reset_same_store ts s) as [H1 H2].
+  split; [apply wf_imm_reset; exact Hwf|exact H1|exact H2|discriminate|discriminate].
+Qed.
+#[local] Hint Resolve sr_set_imm : srdb.
+
+Lemma sr_program_end : orel SRw program_end.
+Proof. unfold program_end; sr_walk. Qed.
+Lemma sr_reset_data : orel SRw reset_data_cursor.
+Proof. unfold reset_data_cursor; sr_walk. Qed.
+#[local] Hint Resolve sr_program_end sr_reset_data : srdb.
+
+Lemma sr_discard : orel SRw discard_remaining_tokens.
+Proof.
+  unfold discard_remaining_tokens. apply (orel_bind _ SRw_ocat); [sr_leaf|intros ts].
+  apply orel_modify. intros s Hwf.
+  split; [|reflexivity|reflexivity|discriminate|discriminate].
+  apply wf_set_loc; [exact Hwf|exact (wf_loc _ Hwf)].
+Qed.
+#[local] Hint Resolve sr_discard : srdb.
+
+Lemma sr_variables_set n v : orel SRw (variables_set n v).
+Proof. unfold variables_set; sr_walk. Qed.
+#[local] Hint Resolve sr_variables_set : srdb.
+
+(* loops *)
+Lemma sr_remove_loop sym : orel SRw (remove_loop_with_name sym).
+Proof.
+  intros s Hwf. unfold remove_loop_with_name. rewrite bind_get.
+  destruct (find_loop_rev sym (loops s)) as [i|]; [|apply (oc_ok _ SRw_ocat); exact Hwf].
+  rewrite bind_modify. cbn [ret fst snd forget].
+  split; [|reflexivity|reflexivity|discriminate|discriminate].
+  apply wf_set_loops; [exact Hwf|]. apply Forall_firstn'. exact (wf_loops _ Hwf).
+Qed.
+
+Lemma remove_loop_post sym :
+  mpost wf (remove_loop_with_name sym)
+        (fun li s' => forall x, li = Some x -> line_exists s' (lp_loc x)).
+Proof.
+  intros s Hwf. unfold remove_loop_with_name. rewrite bind_get.
+  destruct (find_loop_rev sym (loops s)) as [i|]; [|cbn; discriminate].
+  rewrite bind_modify. cbn [ret]. intros x Hx. apply nth_error_In in Hx.
+  pose proof (wf_loops _ Hwf) as Hall. rewrite Forall_forall in Hall. exact (Hall _ Hx).
+Qed.
+#[local] Hint Resolve sr_remove_loop : srdb.
+
+Lemma sr_start_loop sym a b c : orel SRw (start_loop sym a b c).
+Proof.
+  unfold start_loop. apply (orel_bind _ SRw_ocat); [sr_leaf|intros _].
+  intros s Hwf. rewrite bind_get.
+  destruct (Nat.eqb (length (loops s)) stack_limit); [apply (oc_err _ SRw_ocat); exact Hwf|].
+  rewrite bind_get, bind_modify.
+  eapply (oc_trans _ SRw_ocat); [|apply sr_variables_set|exact Hwf].
+  intros _. split; [|reflexivity|reflexivity|discriminate|discriminate].
+  apply wf_set_loops; [exact Hwf|]. apply Forall_app; split; [exact (wf_loops _ Hwf)|].
+  constructor; [exact (wf_loc _ Hwf)|constructor].
+Qed.
+
+Lemma sr_end_loop sym : orel SRw (end_loop sym).
+Proof.
+  unfold end_loop. apply (orel_bind _ SRw_ocat); [sr_leaf|intros cur].
+  destruct cur as [str|x]; [apply (orel_fail _ SRw_ocat)|].
+  apply sr_of_orelP_wf.
+  eapply (orelP_bind _ SRw_ocat) with (Q := fun li s' => forall x, li = Some x -> line_exists s' (lp_loc x)).
+  - apply orelP_of_orel, sr_remove_loop.
+  - apply remove_loop_post.
+  - intros [li|]; [|apply orelP_of_orel, (orel_fail _ SRw_ocat)].
+    destruct (negb _); [apply orelP_of_orel, (orel_fail _ SRw_ocat)|].
+    eapply (orelP_bind _ SRw_ocat) with (Q := fun _ _ => True);
+      [| apply mpost_True
+       | intros _; apply orelP_of_orel, sr_variables_set].
+    intros s HQ Hwf. specialize (HQ li eq_refl).
+    match goal with |- context [if ?c then _ else _] => destruct c end;
+      [|apply (oc_ok _ SRw_ocat); exact Hwf].
+    unfold modify; cbn [fst snd forget].
+    split; [|reflexivity|reflexivity|discriminate|discriminate].
+    apply wf_set_loops; [apply wf_set_loc; assumption|].
+    apply Forall_app; split; [exact (wf_loops _ Hwf)|]. constructor; [exact HQ|constructor].
+Qed.
+#[local] Hint Resolve sr_start_loop sr_end_loop : srdb.
+
+(* jumps *)
+Lemma sr_goto n : orel SRw (goto_line_number n).
+Proof.
+  intros s Hwf. unfold goto_line_number. rewrite bind_modify, bind_get.
+  unfold store_has; proj_simpl.
+  destruct (toks_get n (st_toks s)) as [ts|] eqn:E; unfold modify, fail; cbn [fst snd forget].
+  - split; [|reflexivity|reflexivity|discriminate|discriminate].
+    apply wf_set_loc; [wf_solve|]. unfold line_exists, line_ok; proj_simpl. rewrite E; discriminate.
+  - split; [wf_solve|reflexivity|reflexivity|discriminate|discriminate].
+Qed.
+#[local] Hint Resolve sr_goto : srdb.
+
+Lemma sr_gosub n : orel SRw (gosub_line_number n).
+Proof.
+  intros s Hwf. unfold gosub_line_number. rewrite bind_get.
+  destruct (Nat.eqb (length (stack s)) stack_limit); [apply (oc_err _ SRw_ocat); exact Hwf|].
+  rewrite bind_get, bind_run.
+  destruct (sr_goto n s Hwf) as [A1 A2 A3 A4 A5].
+  destruct (goto_line_number n s) as [[[]|e l|p| |] s1]; cbn [fst snd forget] in *;
+    try (split; assumption).
+  unfold modify; cbn [fst snd forget].
+  split; [|exact A2|exact A3|discriminate|discriminate].
+  apply wf_set_stack; [exact A1|]. apply Forall_app; split; [exact (wf_stack _ A1)|].
+  constructor; [|constructor]. cbn [fr_ret]. apply (line_exists_same s s1 _ A2). exact (wf_loc _ Hwf).
+Qed.
+
+Lemma sr_return : orel SRw return_to_last_gosub.
+Proof.
+  intros s Hwf. unfold return_to_last_gosub. rewrite bind_modify, bind_get. proj_simpl.
+  destruct (rev (stack s)) as [|fr rest] eqn:E; unfold modify, fail; cbn [fst snd forget].
+  - split; [wf_solve|reflexivity|reflexivity|discriminate|discriminate].
+  - assert (Hst : stack s = rev rest ++ [fr]).
+    { rewrite <- (rev_involutive (stack s)), E. reflexivity. }
+    destruct (wf_stack_split s _ _ Hwf Hst) as [F1 F2].
+    split; [|reflexivity|reflexivity|discriminate|discriminate].
+    apply wf_set_loc; [apply wf_set_stack; [wf_solve|exact F1]|exact F2].
+Qed.
+#[local] Hint Resolve sr_gosub sr_return : srdb.
+
+Lemma sr_define_function name args : orel SRw (define_function name args).
+Proof.
+  intros s Hwf. unfold define_function. rewrite bind_get.
+  pose proof (wf_loc _ Hwf) as Hl. unfold line_exists, line_ok in Hl.
+  destruct (loc_line (loc s)) as [n|]; [|apply (oc_err _ SRw_ocat); exact Hwf].
+  unfold modify; cbn [fst snd forget].
+  split; [|reflexivity|reflexivity|discriminate|discriminate].
+  apply wf_set_functions; [exact Hwf|].
+  apply Forall_alist_set; [|exact (wf_fns _ Hwf)]. intros k; cbn [snd fn_line]. exact Hl.
+Qed.
+#[local] Hint Resolve sr_define_function : srdb.
+
+Lemma sr_program_break : orel SRw program_break_at_current_location.
+Proof.
+  intros s Hwf. unfold program_break_at_current_location.
+  rewrite bind_get, bind_modify, set_imm_is_modify. unfold modify; cbn [fst snd forget].
+  assert (Hwf1 : wf (set_breakpoint (numbered_of (loc s)) s)).
+  { apply wf_set_breakpoint; [exact Hwf|]. intros p. unfold numbered_of.
+    pose proof (wf_loc _ Hwf) as Hl. unfold line_exists, line_ok in Hl.
+    destruct (loc_line (loc s)) as [n|]; [|discriminate]. intros H; inversion H; subst. exact Hl. }
+  pose proof (imm_reset_same_store [] (set_breakpoint (numbered_of (loc s)) s)) as [H1 H2].
+  split; [apply wf_imm_reset; exact Hwf1|exact H1|exact H2|discriminate|discriminate].
+Qed.
+#[local] Hint Resolve sr_program_break : srdb.
+
+Lemma sr_continue_bp : orel SRw continue_from_breakpoint.
+Proof.
+  intros s Hwf. unfold continue_from_breakpoint.
+  rewrite set_imm_is_modify, bind_modify, bind_get.
+  pose proof (wf_imm_reset [] s Hwf) as Hwf1.
+  pose proof (imm_reset_same_store [] s) as [H1 H2].
+  destruct (breakpoint (imm_reset [] s)) as [p|] eqn:E; unfold modify, fail; cbn [fst snd forget].
+  - split; [|exact H1|exact H2|discriminate|discriminate].
+    apply wf_set_breakpoint; [|discriminate]. apply wf_set_loc; [exact Hwf1|].
+    unfold line_exists, line_ok, loc_of_numbered; cbn [loc_line]. exact (wf_bp _ Hwf1 _ E).
+  - split; [exact Hwf1|exact H1|exact H2|discriminate|discriminate].
+Qed.
+
+Lemma sr_reset_runtime : orel SRw reset_runtime_state.
+Proof. unfold reset_runtime_state; sr_walk. Qed.
+#[local] Hint Resolve sr_continue_bp sr_reset_runtime : srdb.
+
+Lemma sr_run_from_first : orel SRw run_from_first_numbered_line.
+Proof.
+  unfold run_from_first_numbered_line. apply (orel_bind _ SRw_ocat); [sr_leaf|intros _].
+  apply orel_modify. intros s Hwf. unfold store_first.
+  destruct (st_keys s) as [|n ks] eqn:E; cbn [hd_error]; [apply (oc_ok _ SRw_ocat); exact Hwf|].
+  split; [|reflexivity|reflexivity|discriminate|discriminate].
+  apply wf_set_loc; [exact Hwf|]. unfold line_exists, line_ok; cbn [loc_line].
+  destruct (wf_store _ Hwf) as (_ & Hk & _). apply Hk. rewrite E; left; reflexivity.
+Qed.
+
+Lemma keys_after_In n l m : keys_after n l = Some m -> In m l.
+Proof.
+  induction l as [|k l IH]; cbn [keys_after]; [discriminate|].
+  destruct (n <? k)%N; [intros H; inversion H; left; reflexivity|intros H; right; auto].
+Qed.
+
+Lemma sr_next_line : orel SRw next_line.
+Proof.
+  intros s Hwf. unfold next_line. rewrite bind_get.
+  destruct (loc_line (loc s)) as [n|]; [|apply (oc_ok _ SRw_ocat); exact Hwf].
+  rewrite bind_get. unfold store_after.
+  destruct (keys_after n (st_keys s)) as [m|] eqn:E; [|apply (oc_ok _ SRw_ocat); exact Hwf].
+  rewrite bind_modify. cbn [ret fst snd forget].
+  split; [|reflexivity|reflexivity|discriminate|discriminate].
+  apply wf_set_loc; [exact Hwf|]. unfold line_exists, line_ok; cbn [loc_line].
+  destruct (wf_store _ Hwf) as (_ & Hk & _). apply Hk. eapply keys_after_In; exact E.
+Qed.
+#[local] Hint Resolve sr_run_from_first sr_next_line : srdb.
+
+(* ---- DATA: PListUnwrap in data_iterator ---- *)
+
+Lemma data_chunks_of_line_locs n ts : forall i,
+  Forall (fun c => loc_line (fst c) = Some n) (data_chunks_of_line n ts i).
+Proof.
+  induction ts as [|t ts IH]; intros i; cbn [data_chunks_of_line]; [constructor|].
+  destruct t; try apply IH. constructor; [reflexivity|apply IH].
+Qed.
+
+Lemma data_chunks_ok toks keys :
+  (forall n, In n keys -> toks_get n toks <> None) ->
+  exists cs, data_chunks keys toks = Ok cs /\ Forall (fun c => line_ok toks (loc_line (fst c))) cs.
+Proof.
+  induction keys as [|n keys IH]; intros H; cbn [data_chunks].
+  - exists []; split; [reflexivity|constructor].
+  - destruct (toks_get n toks) as [ts|] eqn:E; [|exfalso; apply (H n); [left; reflexivity|exact E]].
+    destruct IH as (cs & Hc & Hall); [intros k Hk; apply H; right; exact Hk|].
+    rewrite Hc. eexists; split; [reflexivity|]. apply Forall_app; split; [|exact Hall].
+    eapply Forall_impl; [|apply data_chunks_of_line_locs].
+    intros c Hcl; cbn beta in Hcl. rewrite Hcl. cbn [line_ok]. rewrite E; discriminate.
+Qed.
+
+Lemma data_next_chunks fuel : forall d, di_chunks (snd (data_next fuel d)) = di_chunks d.
+Proof.
+  induction fuel as [|k IH]; intros d; cbn [data_next]; [reflexivity|].
+  destruct (nth_error (di_chunks d) (di_ci d)) as [[l items]|]; [|reflexivity].
+  destruct (nth_error items (di_ii d)); [reflexivity|]. rewrite IH. reflexivity.
+Qed.
+
+Lemma sr_next_data : orel SRw next_data_element.
+Proof.
+  intros s Hwf. unfold next_data_element.
+  assert (Hd : exists d, (match data_it s with
+                          | Some d => Ok d
+                          | None => match data_chunks (st_keys s) (st_toks s) with
+                                    | Ok cs => Ok (mkdi cs 0 0)
+                                    | Panic p => Panic p
+                                    | _ => Panic PListUnwrap
+                                    end
+                          end) = Ok d /\ Forall (fun c => line_exists s (fst c)) (di_chunks d)).
+  { destruct (data_it s) as [d|] eqn:E.
+    - exists d; split; [reflexivity|exact (wf_data _ Hwf _ E)].
+    - destruct (data_chunks_ok (st_toks s) (st_keys s)) as (cs & Hc & Hall).
+      + destruct (wf_store _ Hwf) as (_ & Hk & _). intros n Hn; apply Hk; exact Hn.
+      + rewrite Hc. eexists; split; [reflexivity|exact Hall]. }
+  destruct Hd as (d & -> & Hall).
+  pose proof (data_next_chunks (S (S (length (di_chunks d)))) d) as Hch.
+  destruct (data_next (S (S (length (di_chunks d)))) d) as [e d']. cbn [fst snd forget] in *.
+  split; [|reflexivity|reflexivity|discriminate|discriminate].
+  apply wf_set_data_it; [exact Hwf|]. intros d0 H; inversion H; subst. rewrite Hch. exact Hall.
+Qed.
+#[local] Hint Resolve sr_next_data : srdb.
+
+Lemma coerce_data_plain name e : res_plain (coerce_data name e).
+Proof. unfold coerce_data. destruct (ends_with_dollar name), e; exact I. Qed.
+
+Lemma sr_lift_res {A} (r : res A) : res_plain r -> orel SRw (lift_res r).
+Proof. intros H. apply sr_of_er, er_lift_res, H. Qed.
+
+Lemma sr_lift_coerce name e : orel SRw (lift_res (coerce_data name e)).
+Proof. apply sr_lift_res, coerce_data_plain. Qed.
+#[local] Hint Resolve sr_lift_coerce : srdb.
+
+Lemma er_take_input : orel ERw take_input.
+Proof. unfold take_input; er_walk. Qed.
+Lemma er_is_else : orel ERw is_else_of_then_clause.
+Proof. unfold is_else_of_then_clause; er_walk. Qed.
+#[local] Hint Resolve er_take_input er_is_else : erdb.
+
+(* the INPUT reply parser always yields at least one item *)
+Lemma dp_finish_nonempty q cur elems : dp_finish q cur elems <> [].
+Proof.
+  unfold dp_finish. destruct (if q then _ else _).
+  - destruct elems; discriminate.
+  - destruct elems; discriminate.
+Qed.
+
+Lemma dp_run_nonempty cs : forall q cur elems n, fst (dp_run cs q cur elems n) <> [].
+Proof.
+  induction cs as [|c cs IH]; intros q cur elems n; cbn [dp_run].
+  - cbn [fst]. apply dp_finish_nonempty.
+  - repeat match goal with
+           | |- context [if ?b then _ else _] => destruct b
+           end; try apply IH; cbn [fst]; apply dp_finish_nonempty.
+Qed.
+
+(* ---- INPUT: PRewind ---- *)
+
+(* an INPUT token lies before the cursor on the current line *)
+Definition input_before (s : interp) : Prop :=
+  exists i, i < loc_idx (loc s) /\ nth_error (cur_toks s) i = Some TInput.
+
+Lemma cur_toks_same s s' :
+  st_toks s' = st_toks s -> immediate s' = immediate s -> loc_line (loc s') = loc_line (loc s) ->
+  cur_toks s' = cur_toks s.
+Proof. unfold cur_toks. intros -> -> ->. reflexivity. Qed.
+
+Lemma input_before_post {A} (m : M A) :
+  orel ERw m ->
+  mpost (fun s => wf s /\ input_before s) m (fun _ s' => wf s' /\ input_before s').
+Proof.
+  intros Hm s [Hwf (i & Hi & Hn)]. destruct (Hm s Hwf) as [A1 A2 A3 A4 A5 A6 A7 A8 A9].
+  destruct (m s) as [[a|e l|p| |] s1]; cbn [fst snd forget] in *; auto.
+  destruct (A9 eq_refl) as [B1 B2]. split; [exact A1|]. exists i. split; [lia|].
+  rewrite (cur_toks_same s s1 A2 A4 B1). exact Hn.
+Qed.
+
+Lemma next_token_eq s :
+  line_exists s (loc s) ->
+  next_token s =
+    match nth_error (cur_toks s) (loc_idx (loc s)) with
+    | Some t => (Ok (Some t), set_loc (mkloc (loc_line (loc s)) (S (loc_idx (loc s)))) (bump s))
+    | None => (Ok None, bump s)
+    end.
+Proof.
+  intros H. unfold next_token. rewrite bind_run, (peek_eq s H).
+  destruct (nth_error (cur_toks s) (loc_idx (loc s))); reflexivity.
+Qed.
+
+Lemma next_token_input_post :
+  mpost wf next_token (fun t s' => t = Some TInput -> input_before s').
+Proof.
+  intros s Hwf. rewrite (next_token_eq s (wf_loc _ Hwf)).
+  destruct (nth_error (cur_toks s) (loc_idx (loc s))) as [t|] eqn:E; [|discriminate].
+  intros Ht; inversion Ht; subst. exists (loc_idx (loc s)). split; [proj_simpl; lia|exact E].
+Qed.
+
+Lemma peek_is_eq e s :
+  line_exists s (loc s) ->
+  peek_is e s = (Ok (match nth_error (cur_toks s) (loc_idx (loc s)) with
+                     | Some t => token_eqb t e
+                     | None => false
+                     end), bump s).
+Proof. intros H. unfold peek_is. rewrite bind_run, (peek_eq s H). reflexivity. Qed.
+
+Lemma rewind_loop_safe : forall i s,
+  (exists j, j < i /\ nth_error (cur_toks s) j = Some TInput) ->
+  SRw s (forget (fst (rewind_loop i TInput s))) (snd (rewind_loop i TInput s)).
+Proof.
+  induction i as [|i IH]; intros s (j & Hj & Hn) Hwf; [lia|].
+  cbn [rewind_loop]. rewrite bind_modify.
+  set (s1 := set_loc (mkloc (loc_line (loc s)) i) s).
+  assert (Hwf1 : wf s1) by (apply wf_set_loc; [exact Hwf|exact (wf_loc _ Hwf)]).
+  rewrite bind_run, (peek_is_eq TInput s1 (wf_loc _ Hwf1)).
+  change (cur_toks s1) with (cur_toks s). change (loc_idx (loc s1)) with i.
+  assert (Hwf2 : wf (bump s1)) by (apply wf_set_reads; exact Hwf1).
+  destruct (match nth_error (cur_toks s) i with Some t => token_eqb t TInput | None => false end) eqn:E.
+  - cbn [ret fst snd forget]. split; [exact Hwf2|reflexivity|reflexivity|discriminate|discriminate].
+  - assert (Hj' : j < i).
+    { destruct (Nat.eq_dec j i) as [->|Hne]; [|lia]. rewrite Hn in E. discriminate. }
+    destruct (IH (bump s1) (ex_intro _ j (conj Hj' Hn)) Hwf2) as [B1 B2 B3 B4 B5].
+    split; assumption.
+Qed.
+
+Lemma er_variables_set n v : orel ERw (variables_set n v).
+Proof. unfold variables_set; er_walk. Qed.
+#[local] Hint Resolve er_variables_set : erdb.
+
+Section StmtSafe.
+  Variable fuel : nat.
+  Variable nest : nat.
+  Variable rec : M unit.
+  Hypothesis Hrec : orel SRw rec.
+
+  Lemma er_expr : orel ERw (expr fuel nest).
+  Proof. unfold expr; apply er_evaluate_expression. Qed.
+
+  Lemma er_array_index_expr : orel ERw (evaluate_array_index fuel (expr fuel nest)).
+  Proof. apply er_array_index, er_expr. Qed.
+
+  Lemma er_optional_index : orel ERw (parse_optional_array_index fuel nest).
+  Proof.
+    unfold parse_optional_array_index.
+    orel_walk ERw_ocat ltac:(first [ apply er_array_index_expr | er_leaf ]).
+  Qed.
+
+  Lemma er_parse_lvalue : orel ERw (parse_lvalue fuel nest).
+  Proof.
+    unfold parse_lvalue. orel_walk ERw_ocat ltac:(first [ apply er_optional_index | er_leaf ]).
+  Qed.
+
+  Lemma er_assign lv v : orel ERw (assign_value lv v).
+  Proof. unfold assign_value; er_walk. Qed.
+
+  Ltac st_leaf :=
+    first [ apply sr_of_er, er_expr | apply sr_of_er, er_parse_lvalue | apply sr_of_er, er_optional_index
+          | apply sr_of_er, er_assign | exact Hrec | sr_leaf ].
+  Ltac st_walk := orel_walk SRw_ocat st_leaf.
+
+  Lemma sr_rewind_await :
+    orelP (fun s => wf s /\ input_before s) SRw rewind_program_and_await_input.
+  Proof.
+    intros s [Hwf Hib] _. unfold rewind_program_and_await_input, rewind_before_token.
+    rewrite bind_run, bind_get.
+    destruct (rewind_loop_safe (loc_idx (loc s)) s Hib Hwf) as [B1 B2 B3 B4 B5].
+    destruct (rewind_loop (loc_idx (loc s)) TInput s) as [[[]|e l|p| |] s1]; cbn [fst snd forget] in *;
+      try (split; assumption).
+    unfold modify; cbn [fst snd forget]. split; [wf_solve|exact B2|exact B3|discriminate|discriminate].
+  Qed.
+
+  Lemma take_input_post :
+    mpost (fun _ => True) take_input (fun ti _ => forall d l, ti = Some (d, l) -> d <> []).
+  Proof.
+    intros s _. unfold take_input. rewrite bind_get. destruct (input s) as [text|]; [|cbn; discriminate].
+    rewrite bind_modify. pose proof (dp_run_nonempty (utf8_chars text) false [] [] 0) as Hne.
+    fold (parse_data text) in Hne. destruct (parse_data text) as [elems n]. cbn [ret fst] in *.
+    intros d l H; inversion H; subst. exact Hne.
+  Qed.
+
+  Lemma sr_input_statement : orelP input_before SRw (evaluate_input_statement fuel nest).
+  Proof.
+    assert (H : orelP (fun s => wf s /\ input_before s) SRw (evaluate_input_statement fuel nest)).
+    2:{ intros s Hib Hwf. apply H; [split; assumption|exact Hwf]. }
+    unfold evaluate_input_statement.
+    eapply (orelP_bind _ SRw_ocat)
+      with (Q := fun ti s' => (wf s' /\ input_before s') /\ (forall d l, ti = Some (d, l) -> d <> [])).
+    - apply orelP_of_orel, sr_of_er, er_take_input.
+    - apply mpost_conj; [apply input_before_post, er_take_input|].
+      eapply mpost_weaken; [|apply take_input_post]. intros; exact I.
+    - intros [[data leftover]|]; apply orelP_pure; intros Hne; [|apply sr_rewind_await].
+      destruct data as [|first rest]; [exfalso; eapply Hne; reflexivity|].
+      eapply (orelP_bind _ SRw_ocat) with (Q := fun _ s' => wf s' /\ input_before s').
+      + apply orelP_of_orel, sr_of_er, er_parse_lvalue.
+      + apply input_before_post, er_parse_lvalue.
+      + intros lv. pose proof (coerce_data_plain (lv_sym lv) first) as Hp.
+        destruct (coerce_data (lv_sym lv) first) as [v|e [l|]|p| |]; cbn in Hp; try contradiction.
+        * apply orelP_of_orel. st_walk.
+        * destruct e; try (apply orelP_of_orel; apply (orel_fail _ SRw_ocat)).
+          eapply (orelP_bind _ SRw_ocat) with (Q := fun _ s' => wf s' /\ input_before s').
+          -- apply orelP_of_orel, sr_of_er, er_push_output.
+          -- apply input_before_post, er_push_output.
+          -- intros _. apply sr_rewind_await.
+  Qed.
+
+  Lemma sr_break : orel SRw break_at_current_location.
+  Proof. unfold break_at_current_location; st_walk. Qed.
+
+  Lemma sr_goto_stmt : orel SRw evaluate_goto_statement.
+  Proof. unfold evaluate_goto_statement; st_walk. Qed.
+
+  Lemma sr_gosub_stmt : orel SRw evaluate_gosub_statement.
+  Proof. unfold evaluate_gosub_statement; st_walk. Qed.
+
+  Lemma sr_stmt_or_goto : orel SRw (statement_or_goto_line_number rec).
+  Proof.
+    unfold statement_or_goto_line_number.
+    orel_walk SRw_ocat ltac:(first [ apply sr_goto_stmt | st_leaf ]).
+  Qed.
+
+  Lemma sr_if : orel SRw (evaluate_if_statement fuel nest rec).
+  Proof.
+    unfold evaluate_if_statement.
+    orel_walk SRw_ocat ltac:(first [ apply sr_stmt_or_goto | st_leaf ]).
+  Qed.
+
+  Lemma sr_assignment sym : orel SRw (evaluate_assignment_statement fuel nest sym).
+  Proof. unfold evaluate_assignment_statement; st_walk. Qed.
+
+  Lemma sr_let : orel SRw (evaluate_let_statement fuel nest).
+  Proof.
+    unfold evaluate_let_statement.
+    orel_walk SRw_ocat ltac:(first [ apply sr_assignment | st_leaf ]).
+  Qed.
+
+  Lemma sr_read : orel SRw (evaluate_read_statement fuel nest).
+  Proof. unfold evaluate_read_statement; st_walk. Qed.
+
+  Lemma sr_dim : orel SRw (evaluate_dim_statement fuel nest).
+  Proof. unfold evaluate_dim_statement; st_walk. Qed.
+
+  Lemma sr_print : orel SRw (evaluate_print_statement fuel nest).
+  Proof. unfold evaluate_print_statement; st_walk. Qed.
+
+  Lemma sr_for : orel SRw (evaluate_for_statement fuel nest).
+  Proof. unfold evaluate_for_statement; st_walk. Qed.
+
+  Lemma sr_next_stmt : orel SRw evaluate_next_statement.
+  Proof. unfold evaluate_next_statement; st_walk. Qed.
+
+  Lemma sr_def : orel SRw (evaluate_def_statement fuel).
+  Proof. unfold evaluate_def_statement; st_walk. Qed.
+
+  Ltac body_leaf :=
+    first [ apply sr_break | apply sr_dim | apply sr_print | apply sr_if | apply sr_goto_stmt
+          | apply sr_gosub_stmt | apply sr_for | apply sr_next_stmt | apply sr_def | apply sr_read
+          | apply sr_let | apply sr_assignment | st_leaf ].
+
+  Lemma sr_statement_body : orel SRw (evaluate_statement_body fuel nest rec).
+  Proof.
+    unfold evaluate_statement_body.
+    apply (orel_bind _ SRw_ocat); [apply (orel_get _ SRw_ocat)|intros tr].
+    apply (orel_bind _ SRw_ocat); [st_walk|intros _].
+    apply sr_of_orelP_wf.
+    eapply (orelP_bind _ SRw_ocat) with (Q := fun t s' => t = Some TInput -> input_before s').
+    - apply orelP_of_orel, sr_of_er, er_next_token.
+    - apply next_token_input_post.
+    - intros [t|]; [|apply orelP_of_orel, (orel_ret _ SRw_ocat)].
+      destruct t;
+        try (apply orelP_of_orel; solve [orel_walk SRw_ocat body_leaf]).
+      intros s HQ. apply sr_input_statement. apply HQ; reflexivity.
+  Qed.
+End StmtSafe.
+
+Lemma sr_evaluate_statement fuel : forall n, orel SRw (evaluate_statement fuel n).
+Proof.
+  induction fuel as [|k IH]; intros n; cbn [evaluate_statement].
+  - apply (orel_out_of_fuel _ SRw_ocat).
+  - destruct (Nat.eqb n max_nesting); [apply (orel_fail _ SRw_ocat)|].
+    apply sr_statement_body; apply IH.
+Qed.
+
+Lemma forget_panic {A} (r : res A) p : r = Panic p <-> forget r = Panic p.
+Proof. destruct r; cbn [forget]; split; intros H; try discriminate; inversion H; reflexivity. Qed.
+
+(* the evaluators, in plain words *)
+Corollary evaluate_expression_safe fuel n s :
+  wf s ->
+  (forall p, fst (evaluate_expression fuel n s) <> Panic p)
+  /\ wf (snd (evaluate_expression fuel n s))
+  /\ (forall v, fst (evaluate_expression fuel n s) = Ok v ->
+        stack (snd (evaluate_expression fuel n s)) = stack s
+        /\ loc_line (loc (snd (evaluate_expression fuel n s))) = loc_line (loc s)
+        /\ loc_idx (loc s) <= loc_idx (loc (snd (evaluate_expression fuel n s)))).
+Proof.
+  intros Hwf. destruct (er_evaluate_expression fuel n s Hwf) as [A1 A2 A3 A4 A5 A6 A7 A8 A9].
+  split; [intros p H; apply forget_panic in H; exact (A6 p H)|]. split; [exact A1|].
+  intros v Hv. rewrite Hv in *. cbn [forget] in *.
+  split; [apply A8; exact I|apply A9; reflexivity].
+Qed.
+
+Corollary evaluate_statement_safe fuel n s :
+  wf s ->
+  (forall p, fst (evaluate_statement fuel n s) <> Panic p) /\ wf (snd (evaluate_statement fuel n s)).
+Proof.
+  intros Hwf. destruct (sr_evaluate_statement fuel n s Hwf) as [A1 A2 A3 A4 A5].
+  split; [intros p H; apply forget_panic in H; exact (A4 p H)|exact A1].
+Qed.
+
+(* ------------------------------------------------------------------ *)
+(* 6. The host API *)
+
+Lemma sr_run_next_statement fuel : orel SRw (run_next_statement fuel).
+Proof.
+  unfold run_next_statement, return_to_idle_state.
+  orel_walk SRw_ocat ltac:(first [ apply sr_evaluate_statement | sr_leaf ]).
+Qed.
+
+(* LIST: PListUnwrap *)
+Lemma sr_list : orel SRw (fun s => (list_lines (st_keys s) (st_toks s), s)).
+Proof.
+  intros s Hwf. cbn [fst snd].
+  destruct (list_lines_ok (st_keys s) (st_toks s)) as (ls & Hl & _).
+  - destruct (wf_store _ Hwf) as (_ & Hk & _). intros n Hn; apply Hk; exact Hn.
+  - rewrite Hl. cbn [forget]. apply (oc_ok _ SRw_ocat); exact Hwf.
+Qed.
+
+Lemma sr_process_command fuel c : orel SRw (process_command fuel c).
+Proof.
+  destruct c; cbn [process_command];
+    orel_walk SRw_ocat ltac:(first [ apply sr_run_next_statement | apply sr_list | sr_leaf ]).
+Qed.
+
+(* what a host call guarantees about its outcome and end state *)
+Record TR (r : res unit) (s' : interp) : Prop := {
+  tr_wf : wf s';
+  tr_nopanic : forall p, r <> Panic p;
+  tr_errloc : forall e l, r = Err e (Some l) -> line_exists s' l }.
+
+Lemma SR_TR s r s' : SR s r s' -> TR r s'.
+Proof. intros [A1 A2 A3 A4 A5]. split; assumption. Qed.
+
+Lemma forget_unit (r : res unit) : forget r = r.
+Proof. destruct r as [[]|e l|p| |]; reflexivity. Qed.
+
+Lemma tr_of_sr (m : M unit) s : orel SRw m -> wf s -> TR (fst (m s)) (snd (m s)).
+Proof.
+  intros H Hwf. rewrite <- (forget_unit (fst (m s))). eapply SR_TR. apply H; exact Hwf.
+Qed.
+
+Lemma arrays_store_set n ts s : arrays (store_set n ts s) = arrays s.
+Proof. unfold store_set. destruct ts; reflexivity. Qed.
+
+(* entering, replacing or deleting a program line: the store changes, and
+   every reference into the program is dropped *)
+Lemma wf_set_numbered_line n ts s : wf s -> wf (snd (set_numbered_line n ts s)).
+Proof.
+  intros Hwf.
+  pose proof (store_set_ok n ts s (wf_store _ Hwf)) as Hs.
+  pose proof (arrays_store_set n ts s) as Ha.
+  pose proof (wf_arrays _ Hwf) as Harr.
+  change (snd (set_numbered_line n ts s))
+    with (imm_reset [] (set_loops [] (set_stack [] (set_functions [] (set_data_it None
+            (set_breakpoint None (store_set n ts s))))))).
+  unfold imm_reset. proj_simpl.
+  split; unfold store_ok, line_exists in *; proj_simpl; auto; try discriminate.
+  - exact I.
+  - rewrite Ha; exact Harr.
+Qed.
+
+Lemma tr_evaluate_impl fuel line s :
+  wf s -> state s = Idle ->
+  TR (fst (evaluate_impl fuel line s)) (snd (evaluate_impl fuel line s)).
+Proof.
+  intros Hwf Hidle. unfold evaluate_impl. rewrite bind_get, Hidle, set_imm_is_modify, bind_modify.
+  pose proof (wf_imm_reset [] s Hwf) as Hwf0. set (s0 := imm_reset [] s) in *.
+  destruct (command_of line) as [c|].
+  - apply (tr_of_sr (process_command fuel c)); [apply sr_process_command|exact Hwf0].
+  - destruct (match parse_line_number line with Some (n, e) => (Some n, e) | None => (None, 0) end)
+      as [num skip].
+    destruct (tokenize line skip) as [ts|ts err].
+    + destruct num as [n|].
+      * split; [apply wf_set_numbered_line; exact Hwf0|discriminate|discriminate].
+      * apply (tr_of_sr (set_and_goto_immediate_line (map fst ts) ;;; run_next_statement fuel));
+          [|exact Hwf0].
+        apply (orel_bind _ SRw_ocat); [apply sr_set_imm|intros _; apply sr_run_next_statement].
+    + unfold fail; cbn [fst snd]. split; [exact Hwf0|discriminate|discriminate].
+Qed.
+
+Lemma tr_postprocess (x : res unit * interp) :
+  TR (fst x) (snd x) -> TR (fst (postprocess x)) (snd (postprocess x)).
+Proof.
+  destruct x as [[[]|e l|p| |] s]; cbn [postprocess fst snd]; auto.
+  intros [A1 A2 A3]. split; [wf_solve|discriminate|].
+  intros e0 l0 H; inversion H; subst.
+  apply (populate_loc_ok s e0 l l0 A1); [|assumption]. intros l1 ->. eapply A3; reflexivity.
+Qed.
+
+Lemma postprocess_err (x : res unit * interp) e l s1 :
+  postprocess x = (Err e l, s1) -> state s1 = Idle.
+Proof.
+  destruct x as [[[]|e0 l0|p| |] s]; cbn [postprocess]; intros H; inversion H; subst. reflexivity.
+Qed.
+
+Lemma tr_call fuel s op :
+  wf s -> TR (fst (call_result fuel s op)) (snd (call_result fuel s op)).
+Proof.
+  intros Hwf. unfold call_result. destruct (legal s op) eqn:Hl; cbn [negb].
+  2:{ cbn [fst snd]. split; [exact Hwf|discriminate|discriminate]. }
+  pose proof (wf_set_reads 0 s Hwf) as Hwf0.
+  destruct op as [text| |text| |seed| |w t|]; cbn [fst snd].
+  - unfold legal in Hl. destruct (state s) eqn:Hst; try discriminate.
+    unfold start_evaluating. apply tr_postprocess. apply tr_evaluate_impl; [exact Hwf0|exact Hst].
+  - unfold legal in Hl. destruct (state s) eqn:Hst; try discriminate.
+    unfold continue_evaluating. change (state (set_reads 0 s)) with (state s). rewrite Hst.
+    apply tr_postprocess.
+    apply (tr_of_sr (run_next_statement fuel)); [apply sr_run_next_statement|exact Hwf0].
+  - unfold legal in Hl. destruct (state s) eqn:Hst; try discriminate.
+    unfold provide_input. change (state (set_reads 0 s)) with (state s). rewrite Hst. cbn [fst snd].
+    split; [wf_solve|discriminate|discriminate].
+  - unfold host_break. apply (tr_of_sr break_at_current_location); [apply sr_break|exact Hwf0].
+  - unfold randomize, modify; cbn [fst snd]. split; [wf_solve|discriminate|discriminate].
+  - split; [apply wf_fresh|discriminate|discriminate].
+  - split; [wf_solve|discriminate|discriminate].
+  - split; [apply wf_fresh|discriminate|discriminate].
+Qed.
+
+Lemma wf_drained s op s1 : wf s1 -> wf (drained s op s1).
+Proof.
+  intros H. unfold drained. destruct (negb (legal s op)); [exact H|].
+  destruct op; wf_solve.
+Qed.
+
+(* ------------------------------------------------------------------ *)
+(* Main theorems *)
+
+Theorem step_no_panic fuel s op :
+  wf s ->
+  (forall p, fst (call_result fuel s op) <> Panic p) /\ wf (snd (step fuel s op)).
+Proof.
+  intros Hwf. destruct (tr_call fuel s op Hwf) as [A1 A2 A3]. split; [exact A2|].
+  rewrite step_call_result. apply wf_drained; exact A1.
+Qed.
+
+(* the outcomes of the calls made along a history *)
+Fixpoint run_results (fuel : nat) (s : interp) (ops : list hostop) : list (res unit) :=
+  match ops with
+  | [] => []
+  | op :: r => fst (call_result fuel s op) :: run_results fuel (snd (step fuel s op)) r
+  end.
+
+Theorem history_no_panic fuel ops : forall s,
+  wf s ->
+  Forall (fun r => forall p, r <> Panic p) (run_results fuel s ops) /\ wf (run_state fuel s ops).
+Proof.
+  induction ops as [|op ops IH]; intros s Hwf; cbn [run_results run_state].
+  - split; [constructor|exact Hwf].
+  - destruct (step_no_panic fuel s op Hwf) as [H1 H2].
+    destruct (IH _ H2) as [H3 H4]. split; [constructor; assumption|exact H4].
+Qed.
+
+(* from a fresh interpreter *)
+Corollary session_no_panic fuel oracle ops :
+  Forall (fun r => forall p, r <> Panic p) (run_results fuel (fresh oracle) ops).
+Proof. apply history_no_panic, wf_fresh. Qed.
+
+Lemma render_caret_ok e l line s :
+  (forall l0, l = Some l0 -> line_exists s l0) -> exists ls, render_caret e l line s = Ok ls.
+Proof.
+  intros Hl. unfold render_caret.
+  assert (Hfrom : exists ls,
+            match line, e with
+            | Some text, ESyntaxTok t =>
+                let '(a, b) := error_range t (length text) in
+                Ok [text; repeat 32%N a ++ repeat 94%N (b - a)]
+            | _, _ => Ok []
+            end = Ok ls).
+  { destruct line as [text|]; [|eexists; reflexivity].
+    destruct e; try (eexists; reflexivity). destruct (error_range _ _); eexists; reflexivity. }
+  destruct l as [l0|]; [|exact Hfrom].
+  specialize (Hl l0 eq_refl). unfold line_exists, line_ok in Hl.
+  unfold program_caret, tokens_for_line.
+  destruct (loc_line l0) as [n|]; cbn [fst].
+  - destruct (toks_get n (st_toks s)) as [ts|]; [|congruence]. cbn [fst].
+    destruct ts; [exact Hfrom|eexists; reflexivity].
+  - destruct (immediate s); [exact Hfrom|eexists; reflexivity].
+Qed.
+
+Theorem errors_are_values fuel s op e l s1 :
+  wf s -> legal s op = true -> call_result fuel s op = (Err e l, s1) ->
+  state s1 = Idle /\ exists ls, render_caret e l (line_of op) s1 = Ok ls.
+Proof.
+  intros Hwf Hl Hc. pose proof (tr_call fuel s op Hwf) as [A1 A2 A3]. rewrite Hc in *. cbn [fst snd] in *.
+  split; [|apply render_caret_ok; intros l0 ->; eapply A3; reflexivity].
+  unfold call_result in Hc. rewrite Hl in Hc. cbn [negb] in Hc.
+  destruct op as [text| |text| |seed| |w t|]; try discriminate.
+  - unfold start_evaluating in Hc. eapply postprocess_err; exact Hc.
+  - unfold continue_evaluating in Hc. destruct (state (set_reads 0 s)); try discriminate.
+    eapply postprocess_err; exact Hc.
+  - unfold provide_input in Hc. destruct (state (set_reads 0 s)); discriminate.
+Qed.
+
+(* after an error the interpreter still accepts lines *)
+Corollary error_then_line_accepted fuel s op e l s1 text :
+  wf s -> legal s op = true -> call_result fuel s op = (Err e l, s1) ->
+  legal (drained s op s1) (HLine text) = true.
+Proof.
+  intros Hwf Hl Hc. destruct (errors_are_values fuel s op e l s1 Hwf Hl Hc) as [Hidle _].
+  unfold drained. rewrite Hl. cbn [negb].
+  destruct op; unfold legal; proj_simpl; rewrite Hidle; reflexivity.
+Qed.
+
+(* ------------------------------------------------------------------ *)
+(* Non-vacuity: a concrete session (two program lines, RUN, continue, break,
+   CONT, then a failing line) makes real calls, all legal, none panics, and
+   the failing one is an error value. *)
+
+Definition demo_ops : list hostop :=
+  [ HLine (bs "10 PRINT 1"); HLine (bs "20 GOTO 10"); HLine (bs "RUN");
+    HCont; HBreak; HLine (bs "CONT"); HBreak; HLine (bs "GOTO 30") ].
+
+Fixpoint run_legal (fuel : nat) (s : interp) (ops : list hostop) : list bool :=
+  match ops with
+  | [] => []
+  | op :: r => legal s op :: run_legal fuel (snd (step fuel s op)) r
+  end.
+
+Example demo_all_legal :
+  run_legal default_fuel (fresh []) demo_ops = [true; true; true; true; true; true; true; true].
+Proof. vm_compute. reflexivity. Qed.
+
+Example demo_no_panic :
+  run_results default_fuel (fresh []) demo_ops =
+    [Ok tt; Ok tt; Ok tt; Ok tt; Ok tt; Ok tt; Ok tt; Err EUndefinedStatement (Some (mkloc None 1))].
+Proof. vm_compute. reflexivity. Qed.
+
+(* a session that goes through DEF FN / function call, DIM / array cells,
+   INPUT with a rejected reply (the rewind) and an accepted one, READ / DATA,
+   an error inside a numbered line, deleting a line, and CONT *)
+Definition demo_ops2 : list hostop :=
+  [ HLine (bs "10 DEF FNA(X)=X*2"); HLine (bs "20 DIM A(3)"); HLine (bs "30 INPUT B");
+    HLine (bs "40 A(1)=FNA(B)"); HLine (bs "50 READ C$"); HLine (bs "60 DATA hello");
+    HLine (bs "70 PRINT A(1);C$"); HLine (bs "80 PRINT A(4)"); HLine (bs "RUN");
+    HCont; HCont; HReply (bs "x"); HCont; HReply (bs "21"); HCont; HCont; HCont; HCont; HCont; HCont;
+    HLine (bs "30"); HLine (bs "CONT") ].
+
+Example demo2_all_legal :
+  forallb (fun b => b) (run_legal default_fuel (fresh []) demo_ops2) = true.
+Proof. vm_compute. reflexivity. Qed.
+
+Example demo2_no_panic :
+  run_results default_fuel (fresh []) demo_ops2 =
+    repeat (Ok tt) 19 ++
+    [ Err EBadSubscript (Some (mkloc (Some 80%N) 4)); Ok tt;
+      Err ECannotContinue (Some (mkloc None 0)) ].
+Proof. vm_compute. reflexivity. Qed.
+
+Print Assumptions step_no_panic.
+Print Assumptions history_no_panic.
+Print Assumptions session_no_panic.
+Print Assumptions errors_are_values.
+Print Assumptions error_then_line_accepted.
